@@ -4,6 +4,9 @@
 OUT=$(mktemp -d /tmp/wiresim-soak.XXXXXX)
 cp /verif/known_findings.json "$OUT/" 2>/dev/null
 T=${3:-8}
+# rebuild against the clean /repo first: the shared target may hold a binary built from a patched tree
+if [ -n "$(git -C /repo status --porcelain)" ]; then echo "refusing: /repo has uncommitted changes"; exit 2; fi
+(cd /verif/sim && CARGO_TARGET_DIR=/verif/target cargo build --release --offline >/dev/null 2>&1) || { echo "build failed"; exit 2; }
 # private copy of the binary: other tools (mutants.py / seeded.py) rebuild /verif/target against a patched /repo
 cp /verif/target/release/wiresim "$OUT/wiresim"
 bad=0
